@@ -567,7 +567,13 @@ func Explain(sp *spec.Spec, m *spec.Method, sent any) []string {
 			if l.Attr != "" && so != nil {
 				v = so[l.Attr]
 			}
-			if vtree.Kind(v) == "s" && strings.Contains(vtree.Text(v), "/") {
+			isCatchAll := false
+			for _, r := range h.Routes {
+				if strings.Contains(r.Path, "{*"+l.WireName()+"}") {
+					isCatchAll = true
+				}
+			}
+			if vtree.Kind(v) == "s" && strings.Contains(vtree.Text(v), "/") && !isCatchAll {
 				tags["path-value-with-slash"] = true
 			}
 		}
